@@ -7,7 +7,9 @@
                       re-indented when it is printed inside an indented block)
    doc_*     the pieces the formatter prints for a node, in order; [render] is the text
    srcs      the terminals of the pieces:   the printer's token list, fmt_tokens
-   canon_*   the tree with a comma after every match pair and every key list numbers first *)
+   canon_*   the tree with a comma after every match pair (a key list is rebuilt from its
+             printed items; Proofs/FmtDocProofs.v canon_key_list_ok: it is the list itself when
+             its items are DIGITS or STRING tokens, as in every tree [parse] returns) *)
 From FP Require Export FmtDefs.
 Open Scope string_scope.
 Open Scope list_scope.
@@ -99,9 +101,8 @@ Definition doc_meta_decl (d : meta_decl) : list piece :=
 Definition doc_ref_meta_decl (d : ref_meta_decl) : list piece :=
   [tk (rm_typ d); sp1; tk (rm_name d)] ++ doc_opt (rm_doc d) ++ [Tk "," (rm_comma d)].
 
-(* key lists: the items numbers first, the commas of the source in their order *)
-Definition key_items (l : key_list) : list ptok :=
-  filter (fun k => Nat.eqb (p_type k) T_DIGITS) (list_items l) ++ filter (fun k => Nat.eqb (p_type k) T_STRING) (list_items l).
+(* key lists: the items (Formatter.key_items: the DIGITS and STRING children in source order)
+   and the commas of the source in their order *)
 
 Fixpoint zip_commas (cs : list ptok) (items : list ptok) : list (ptok * ptok) :=
   match items with
